@@ -306,6 +306,16 @@ class World:
                 hashlib.sha256(np.random.get_state()[1].tobytes()).hexdigest()[:12],
                 hashlib.sha256(repr(__import__("random").getstate()).encode()).hexdigest()[:12]]
 
+    def guard_reflexive(self, obs, what):
+        """Before a difference between two observables is reported, make sure the comparison itself is sound for
+        this value: an observable must compare equal to a pickled copy of itself.  If it does not, the harness is
+        at fault (exit 2), not formulae."""
+        import pickle
+
+        d = compare_obs(obs, pickle.loads(pickle.dumps(obs, protocol=4)), what)
+        if d:
+            raise RuntimeError(f"harness comparison is not reflexive for {what}: {d}")
+
     def fail(self, oracle, kind, key, detail, extra=None):
         v = Violation(oracle, kind, key, detail, extra)
         if self.suppress(v):
@@ -484,6 +494,7 @@ class World:
                 else:
                     d = compare_obs(obs, ref[1], "design", self.stats)
                     if d:
+                        self.guard_reflexive(obs, "design")
                         self.fail("A", "build-value", "design", f"build of {op['formula']!r} differs from a "
                                   f"fresh process: {d}")
         if rebuild_of is not None and "S" in self.oracles and outcome == "ok":
@@ -594,6 +605,7 @@ class World:
             else:
                 d = compare_obs(obs, ref[1], part, self.stats)
                 if d:
+                    self.guard_reflexive(obs, part)
                     self.fail("A", "eval-value", d.split(":")[0], f"evaluate_new_data({op['frame']}) on "
                               f"{op['target']} differs from the same evaluation on a fresh design in a fresh "
                               f"process: {d}")
